@@ -325,18 +325,15 @@ class ArMember(object):
             self.__fp = open(self.__fname, "rb")  # pylint: disable = consider-using-with
         self.__fp.seek(self.__cur)
 
-        if size is not None:
-            buf = self.__fp.readline(size)
-            self.__cur = self.__fp.tell()
-            if self.__cur > self.__end:
-                return b''
-
-            return buf
-
-        buf = self.__fp.readline()
-        self.__cur = self.__fp.tell()
-        if self.__cur > self.__end:
+        if self.__cur >= self.__end or self.__cur < self.__offset:
             return b''
+
+        # never read past the end of this member
+        remaining = self.__end - self.__cur
+        if size is None or size < 0 or size > remaining:
+            size = remaining
+        buf = self.__fp.readline(size)
+        self.__cur = self.__fp.tell()
         return buf
 
     def readlines(self, sizehint=0):
